@@ -112,6 +112,99 @@ theorem links_exact (cs : List Comp) (F : List Tree) (hv : validate cs F = .ok (
         | input e => simp [Tree.kids] at hj
         | node e ks => rfl
 
+/-- after validation the root above every input of the composition is an `Output` object -/
+theorem validated_sources (cs : List Comp) (F : List Tree) (hv : validate cs F = .ok ()) :
+    ∀ i ∈ compInputs cs, ∃ r rest, fwalk F i = some (r :: rest) ∧ r.isSource = true := by
+  intro i hi
+  apply Classical.byContradiction
+  intro hn
+  have : Rejected (validate cs F) := by
+    refine (validate_rejected cs F).mpr (Or.inl ⟨i, hi, (checkInput_rejected F i).mpr (Or.inl ?_)⟩)
+    refine (checkInputConnected_rejected F i).mpr (Or.inl ?_)
+    intro r rest hw
+    cases hs : r.isSource with
+    | false => rfl
+    | true => exact absurd ⟨r, rest, hw, hs⟩ hn
+  exact this hv
+
+/-- every collected adapter lies strictly below a root -/
+theorem adapters_length (cs : List Comp) (F : List Tree) (hv : validate cs F = .ok ()) :
+    ∀ q ∈ adapters cs F, 2 ≤ q.length := by
+  intro q hq
+  simp only [adapters, mem_dedup, List.mem_append, List.mem_flatMap] at hq
+  rcases hq with ⟨i, hi, hq⟩ | ⟨o, ho, hq⟩
+  · obtain ⟨r, rest, hw, hs⟩ := validated_sources cs F hv i hi
+    simp only [adaptersAbove, List.mem_filterMap, List.mem_filter, List.mem_range, decide_eq_true_eq] at hq
+    obtain ⟨n, ⟨hn1, hn2⟩, hq⟩ := hq
+    cases hw2 : fwalk F (i.take n) with
+    | none => simp [hw2] at hq
+    | some p =>
+      cases hl : p.getLast? with
+      | none => simp [hw2, hl] at hq
+      | some t =>
+        simp only [hw2, hl] at hq
+        split at hq
+        · cases hq
+        · rename_i hns
+          cases hq
+          -- n = 1 would make t the root, which is a source
+          cases i with
+          | nil => simp at hn1
+          | cons k i' =>
+            cases n with
+            | zero => omega
+            | succ n =>
+              cases n with
+              | zero =>
+                exfalso
+                simp only [List.take_succ_cons, List.take_zero] at hw2
+                obtain ⟨t0, ht0, rfl⟩ := fwalk_single F k p hw2
+                simp at hl; subst hl
+                obtain ⟨t1, ht1, hwalk⟩ := (fwalk_cons F k i' (r :: rest)).mp hw
+                rw [ht0] at ht1; cases ht1
+                have := walk_head t0 i' _ hwalk
+                simp at this; subst this
+                exact hns hs
+              | succ n =>
+                simp only [List.length_cons] at hn1
+                simp only [List.take_succ_cons, List.length_cons, List.length_take]
+                omega
+  · cases ht : F[o]? with
+    | none => simp [ht] at hq
+    | some t =>
+      simp only [ht, List.mem_map] at hq
+      obtain ⟨q', hq', rfl⟩ := hq
+      have := ((mem_adaptersBelow t q').mp hq').1
+      cases q' with
+      | nil => exact absurd rfl this
+      | cons a b => simp
+
+/-- **no link is reported twice** (every output belongs to one listed component) -/
+theorem links_nodup (cs : List Comp) (F : List Tree) (hv : validate cs F = .ok ())
+    (ho : (compOutputs cs).Nodup) : (links cs F).Nodup := by
+  simp only [links]
+  rw [List.nodup_append]
+  refine ⟨?_, flatMap_directLinks_nodup F _ (dedup_nodup _), ?_⟩
+  · have : (compOutputs cs).flatMap (fun o => directLinks F [o]) =
+        ((compOutputs cs).map (fun o => [o])).flatMap (directLinks F) := by
+      simp [List.flatMap_map]
+    rw [this]
+    apply flatMap_directLinks_nodup
+    simp only [List.Nodup, List.pairwise_map]
+    exact ho.imp (fun {a b} h heq => h (by simpa using heq))
+  · intro x hx y hy heq
+    simp only [List.mem_flatMap] at hx hy
+    obtain ⟨o, _, hx⟩ := hx
+    obtain ⟨q, hq, hy⟩ := hy
+    obtain ⟨x1, x2⟩ := x
+    obtain ⟨y1, y2⟩ := y
+    have h1 := ((mem_directLinks F [o] x1 x2).mp hx).1
+    have h2 := ((mem_directLinks F q y1 y2).mp hy).1
+    cases heq
+    have := adapters_length cs F hv q hq
+    rw [← h2, h1] at this
+    simp at this
+
 /-- On a chain `source, adapters…, input` whose adapters do not need pull (every adapter class of
     FINAM: `Gen.no_adapter_needs_pull`) the clause reads as in the property: the source is
     pull-only and some element behind it must be notified by pushes. -/
@@ -166,6 +259,8 @@ example : validate [⟨[[0, 0], [1, 0]], [0]⟩] exUnconnected = .error .unconne
     validate [⟨[[0, 0], [0, 1, 0]], []⟩] exForeign = .error .missingOut ∧
     validate [⟨[[0, 0, 0]], [0]⟩] [.node eStaticOutput [.node eScale [.input eStaticInput]]] = .ok () := by
   decide
+
+example : (links exCs exF).Nodup := links_nodup exCs exF (by decide) (by decide)
 
 example : Unworkable [⟨[[0, 0, 0, 0]], [0]⟩] exDead ∧
     (connect [⟨[[0, 0, 0, 0]], [0]⟩] exDead (.ok ())).exchanged = [] := by
